@@ -94,6 +94,22 @@ def run(ctx):
                     tag = ("graphs", sc, seed, n, k, be, gc, flags)
                     meta[tag] = graphs_mirror.expected(sc, seed, n, k)
                     jobs.append((tag, exe, [sc, seed, n, k], env, aff))
+    # memory pressure: a young generation that dominates a small heap plus a high survival rate (promotion has to fail over
+    # into to-space in the middle of a minor collection); generational collector only, no forced collections
+    for si in range(ctx.pick(2, 8)):
+        for (be, gc), exe in sorted(built["graphs"].exes.items()):
+            if gc != "swiper":
+                continue
+            r = ctx.rng("tight", jid)
+            jid += 1
+            heap, young, n = r.choice([("8M", "7M", 150000), ("8M", "7M", 170000), ("8M", "6M", 150000), ("16M", "14M", 300000)])
+            flags = "--max-heap-size=%s --gc-young-size=%s --gc-worker=%d%s%s" % (heap, young, r.choice([1, 2, 8]), " --gc-verify" if r.random() < 0.6 else "",
+                                                                                   " --disable-tlab" if r.random() < 0.2 else "")
+            seed = ctx.seed * 1000 + si
+            k = r.choice([3, 4, 7])
+            tag = ("graphs", 10, seed, n, k, be, gc, flags)
+            meta[tag] = graphs_mirror.expected(10, seed, n, k)
+            jobs.append((tag, exe, [10, seed, n, k], {"DORA_FLAGS": flags, "DORA_VERIF_STATS": os.path.join(d, "stats_%d.jsonl" % (jid % 64))}, None))
     by_prog = dict(progs)
     for name, p in progs:
         for (be, gc), exe in sorted(built[name].exes.items()):
@@ -200,5 +216,5 @@ def run(ctx):
             ctx.violation("c03:compiler-output-differs:%s" % tagname, "assembly emitted by the optimizing compiler under DORA_FLAGS='%s' differs from the unstressed run for %s" % (flags, name),
                           files={"program.dora": dict(comp)[name].source()})
     ctx.required_counters = ["hook_GC_PERFORMED", "hook_ROOTSCAN_DISTINCT_MAPS", "gc:copy", "gc:sweep", "gc:swiper", "gc:zero", "flag:--gc-stress", "flag:--gc-stress-minor",
-                             "flag:--disable-tlab", "flag:--gc-worker=8", "scenario:threads", "compiler_workload_runs"]
+                             "flag:--disable-tlab", "flag:--gc-worker=8", "scenario:threads", "scenario:pressure", "compiler_workload_runs"]
     ctx.min_distinct = 50
